@@ -177,10 +177,10 @@ type variant struct {
 
 var (
 	tokenVariants   = []string{"valid", "none", "valid_1h", "valid_2s", "expired_2s", "expired_1h", "badmac", "threeparts", "badb64", "badjson", "noexpiry", "empty_sig"}
-	hostVariants    = []string{"ok_ip", "ok_localhost", "configured", "whitelisted", "foreign", "foreign_port", "empty", "ok_upper"}
-	originVariants  = []string{"none", "ok_ip", "ok_localhost", "configured", "whitelisted", "foreign", "foreign_sameport", "unparsable", "schemeless", "https_ok", "null"}
+	hostVariants    = []string{"ok_ip", "ok_localhost", "configured", "whitelisted", "foreign", "foreign_port", "empty", "ok_upper", "suffix_attack", "prefix_attack", "noport", "otherport", "mutated"}
+	originVariants  = []string{"none", "ok_ip", "ok_localhost", "configured", "whitelisted", "foreign", "foreign_sameport", "unparsable", "schemeless", "https_ok", "null", "userinfo_attack", "suffix_attack", "path_attack", "mutated"}
 	refererVariants = []string{"none", "ok", "foreign", "unparsable"}
-	credsVariants   = []string{"right", "none", "wrongpass", "wronguser", "resplit", "alluser", "allpass", "emptyhdr", "swapped", "malformed_b64", "bearer", "other"}
+	credsVariants   = []string{"right", "none", "wrongpass", "wronguser", "resplit", "alluser", "allpass", "emptyhdr", "swapped", "malformed_b64", "bearer", "other", "mutated", "uppercase"}
 	ctypeVariants   = []string{"json", "json_charset", "form", "none", "jsonx", "text"}
 	acrmVariants    = []string{"none", "POST", "GET"}
 )
@@ -320,7 +320,28 @@ func (p *pool) id(term string) string {
 
 var poolS, poolAuth, poolChk, poolTok pool
 
-func buildRequest(c *config, path, method string, v variant, tokenOverride *string, tokenRef time.Time) builtReq {
+// mutate makes a one-character edit (replace / insert / delete) of s.
+func mutate(r *Rng, s string) string {
+	const alphabet = "abcdefghijklmnopqrstuvwxyz0123456789.:-_@/ "
+	ch := string(alphabet[r.Intn(len(alphabet))])
+	if len(s) == 0 {
+		return ch
+	}
+	i := r.Intn(len(s))
+	switch r.Intn(3) {
+	case 0:
+		if string(s[i]) == ch {
+			ch = "#"
+		}
+		return s[:i] + ch + s[i+1:]
+	case 1:
+		return s[:i] + ch + s[i:]
+	default:
+		return s[:i] + s[i+1:]
+	}
+}
+
+func buildRequest(r *Rng, c *config, path, method string, v variant, tokenOverride *string, tokenRef time.Time) builtReq {
 	var body *strings.Reader
 	if method == "POST" || method == "PUT" {
 		body = strings.NewReader("{}")
@@ -351,6 +372,16 @@ func buildRequest(c *config, path, method string, v variant, tokenOverride *stri
 		req.Host = ""
 	case "ok_upper":
 		req.Host = "LOCALHOST:" + okPort
+	case "suffix_attack":
+		req.Host = "127.0.0.1:" + okPort + ".evil.example.org"
+	case "prefix_attack":
+		req.Host = "localhost.evil.example.org:" + okPort
+	case "noport":
+		req.Host = []string{"127.0.0.1", "localhost"}[r.Intn(2)]
+	case "otherport":
+		req.Host = []string{"127.0.0.1:", "localhost:"}[r.Intn(2)] + okPort + "0"
+	case "mutated":
+		req.Host = mutate(r, []string{"127.0.0.1:" + okPort, "localhost:" + okPort}[r.Intn(2)])
 	}
 	hdr := func(kind string) string {
 		switch kind {
@@ -377,6 +408,14 @@ func buildRequest(c *config, path, method string, v variant, tokenOverride *stri
 			return "https://127.0.0.1:" + okPort
 		case "null":
 			return "null"
+		case "userinfo_attack":
+			return "http://127.0.0.1:" + okPort + "@evil.example.org"
+		case "suffix_attack":
+			return "http://localhost:" + okPort + ".evil.example.org"
+		case "path_attack":
+			return "http://evil.example.org/127.0.0.1:" + okPort
+		case "mutated":
+			return "http://" + mutate(r, []string{"127.0.0.1:" + okPort, "localhost:" + okPort}[r.Intn(2)])
 		}
 		return ""
 	}
@@ -423,6 +462,14 @@ func buildRequest(c *config, path, method string, v variant, tokenOverride *stri
 		req.Header.Set("Authorization", "Bearer "+base64.StdEncoding.EncodeToString([]byte(u+":"+p)))
 	case "other":
 		set("someone", "else")
+	case "mutated":
+		if r.Bool() {
+			set(mutate(r, u), p)
+		} else {
+			set(u, mutate(r, p))
+		}
+	case "uppercase":
+		set(strings.ToUpper(u), strings.ToUpper(p))
 	}
 	// content type
 	ct := map[string]string{"json": "application/json", "json_charset": "application/json; charset=utf-8", "form": "application/x-www-form-urlencoded", "none": "", "jsonx": "application/jsonx", "text": "text/plain"}[v.ctype]
@@ -667,7 +714,7 @@ func run(args []string) error {
 					vs = append(vs, randomVariant(r))
 				}
 				for _, v := range vs {
-					br := buildRequest(c, tg.path, method, v, nil, time.Time{})
+					br := buildRequest(r, c, tg.path, method, v, nil, time.Time{})
 					status, reason := serve(c, br.req)
 					accessTerms = append(accessTerms, record("access", c, ci, tg, method, v, br, status, reason))
 					hist.Add("token:" + v.token)
@@ -684,7 +731,7 @@ func run(args []string) error {
 	var oldTerms []string
 	getToken := func(c *config) (string, time.Time, bool) {
 		ref := time.Now()
-		br := buildRequest(c, "/api/v1/csrf", "GET", baseline, nil, time.Time{})
+		br := buildRequest(r, c, "/api/v1/csrf", "GET", baseline, nil, time.Time{})
 		rec := httptest.NewRecorder()
 		if Guard(func() { c.mux.ServeHTTP(rec, br.req) }) || rec.Code != 200 {
 			return "", ref, false
@@ -723,7 +770,7 @@ func run(args []string) error {
 				}
 				v := baseline
 				v.token = "old_unexpired"
-				br := buildRequest(c, tg.path, method, v, &t1, ref1)
+				br := buildRequest(r, c, tg.path, method, v, &t1, ref1)
 				status, reason := serve(c, br.req)
 				oldTerms = append(oldTerms, record("csrf_old_token", c, ci, tg, method, v, br, status, reason))
 				// old and expired token: refused in any case
@@ -731,7 +778,7 @@ func run(args []string) error {
 				t3 := makeToken("expired_2s", ref3)
 				getToken(c)
 				v.token = "old_expired"
-				br = buildRequest(c, tg.path, method, v, &t3, ref3)
+				br = buildRequest(r, c, tg.path, method, v, &t3, ref3)
 				status, reason = serve(c, br.req)
 				oldTerms = append(oldTerms, record("csrf_old_token", c, ci, tg, method, v, br, status, reason))
 				nOld += 2
